@@ -58,6 +58,9 @@ LAWS = {
     "call-as": ["{F} ( ) as r", "{F} ( ! #value as r )"],
     "call-as-ctx": ["{F} ( {A} ) as r", "{F} ( {A} , ! #value as r )"],
     "call-eq": ["{F} ( {A} ) = 3", "{F} ( {A} , #value = 3 )"],
+    "nested-call-as": ["{G} > {F} ( ) as r", "{G} > {F} ( ! #value as r )", "{G} ( {F} ( ! #value as r ) )"],
+    "nested-call-as-ctx": ["{G} ( {A} ) > {F} ( {A} ) as r", "{G} ( {A} ) > {F} ( {A} , ! #value as r )",
+                           "{G} ( {A} , {F} ( {A} , ! #value as r ) )"],
     "dollar": ["{F} > $ x{S}", "{F} > * as x{S}"],
     "dollar-in-call": ["{F} ( ! $ x{S} )", "{F} ( ! * as x{S} )"],
     "dollar-ctx": ["{F} ( $ x{S} ) > {V}", "{F} ( * as x{S} ) > {V}"],
@@ -239,7 +242,7 @@ def build(case):
             focus_ok = True
             if ok and law not in ("dollar-bare",):
                 main = results[0].main if isinstance(results[0], (Call, Element)) else None
-                want = "r" if law.startswith("call-as") else ("#value" if law == "call-eq" else None)
+                want = "r" if (law.startswith("call-as") or law.startswith("nested-call-as")) else ("#value" if law == "call-eq" else None)
                 if law in ("nest-vs-focus", "ctx-nest-vs-focus", "chain3", "chain3-ctx", "dollar-ctx"):
                     vt = operand_tokens(V)
                     want = vt[vt.index("as") + 1] if "as" in vt else vt[0]
